@@ -446,8 +446,14 @@ class NpProxy(object):
 
         def norm(self, a, *k, **kw):
             if is_sym(a):
-                a = asobj(a).ravel()
-                return SQRT(builtins.sum((lift(v) * lift(v) for v in a), R(0)))
+                a = asobj(a)
+                ord_ = k[0] if k else kw.get('ord')
+                if a.ndim <= 1 and ord_ in (None, 2) or a.ndim == 2 and ord_ in (None, 'fro'):
+                    # Euclidean / Frobenius norm: sqrt of the sum of squares (M6)
+                    return SQRT(builtins.sum((lift(v) * lift(v) for v in a.ravel()), R(0)))
+                # any other matrix / vector norm is NOT the Euclidean length: an uninterpreted value of the entries
+                f = uf('norm[%s,%dd]' % (ord_, a.ndim), a.size)
+                return R(f(*[lift(v).t for v in a.ravel()]))
             return np.linalg.norm(a, *k, **kw)
 
         def pinv(self, m, *k, **kw):
